@@ -1,18 +1,21 @@
 ---- MODULE MempoolObs ----
 (* Deviation handling (DESIGN 8). The node's result or state after a replayed step differed from the deterministic         *)
 (* prediction of Mempool. TLC evaluates what the properties state on the OBSERVED transition. Each line of env OBS:        *)
-(*   {pre:  model state before the step (the node agreed with it): {pool, delta, etime, chain, now},                       *)
-(*    act:  the action, res: the node's result {ok, why, evict, pure},                                                     *)
+(*   {pre:  model state before the step (the node agreed with it): {pool, delta, etime, chain, now, mf, unb, file, ctr},   *)
+(*    act:  the action, res: the node's result {ok, why, evict, pure [, txr] [, @load: {before, order}]},                   *)
 (*    exp:  the model's state after the step, post: the node's projection after the step                                   *)
-(*          {pool, entries:[{t,fee,mfee,vsize,parents,children}], deltas:[{t,d}], tsize, tfee, height, utxo:[{t,i,v,h,cb}]}} *)
+(*          {pool, entries:[{t,fee,mfee,vsize,parents,children}], deltas:[{t,d}], tsize, tfee, height, utxo:[{t,i,v,h,cb}], *)
+(*           usage, maxusage, minfee, unb, times:[{t,time}]}}                                                               *)
 EXTENDS Mempool
 ObsLines == ndJsonDeserialize(IOEnv.OBS)
 VARIABLE idx
 ToSet(s) == {s[i] : i \in 1..Len(s)}
+FileOf(f) == [saved |-> f.saved, recs |-> f.recs, stray |-> ToSet(f.stray), unb |-> ToSet(f.unb)]
 InitObs == /\ idx \in 1..Len(ObsLines)
            /\ pool = ToSet(ObsLines[idx].pre.pool) /\ delta = ObsLines[idx].pre.delta /\ etime = ObsLines[idx].pre.etime
            /\ chain = ObsLines[idx].pre.chain /\ utxo = Replay(ObsLines[idx].pre.chain) /\ now = ObsLines[idx].pre.now
-           /\ ctr = Ctr0 /\ lastAct = <<"observed", idx>> /\ lastRes = NoneRes
+           /\ mf = ObsLines[idx].pre.mf /\ unb = ToSet(ObsLines[idx].pre.unb) /\ file = FileOf(ObsLines[idx].pre.file)
+           /\ ctr = ObsLines[idx].pre.ctr /\ lastAct = <<"observed", idx>> /\ lastRes = NoneRes
 Stutter == UNCHANGED <<vars, idx>>
 Line == ObsLines[idx]
 Post == Line.post
@@ -22,6 +25,8 @@ PostEntries == ToSet(Post.entries)
 PostUtxo == LET S == ToSet(Post.utxo) IN
             [o \in {<<c.t, c.i>> : c \in S} |-> LET c == CHOOSE c \in S : c.t = o[1] /\ c.i = o[2] IN Coin(c.v, c.h, c.cb)]
 PostDelta == [t \in TxIds |-> IF \E d \in ToSet(Post.deltas) : d.t = t THEN (CHOOSE d \in ToSet(Post.deltas) : d.t = t).d ELSE 0]
+PostTimes == [t \in TxIds |-> IF \E d \in ToSet(Post.times) : d.t = t THEN (CHOOSE d \in ToSet(Post.times) : d.t = t).time ELSE 0]
+PostUnb == ToSet(Post.unb)
 ExpChain == Line.exp.chain
 \* the confirmed state is the one the (valid) blocks of the behaviour define: what the mempool is judged against
 ObsChain == Post.height = Height(ExpChain) /\ PostUtxo = Replay(ExpChain)
@@ -31,7 +36,7 @@ ObsConsistent == ObsKnown => ConsistentIn(PostPool, PostUtxo)
 ObsNextBlockValid == (ObsKnown /\ ObsChain) => NextBlockValidIn(PostPool, PostUtxo, ExpChain)
 ObsLinks == ObsKnown => \A e \in PostEntries : /\ ToSet(e.parents) = ParentsIn(PostPool, e.t)
                                                /\ ToSet(e.children) = ChildrenIn(PostPool, e.t)
-ObsTotals == ObsKnown => /\ \A e \in PostEntries : e.fee = Fee(e.t) /\ e.vsize = VSize(e.t) /\ e.mfee = Fee(e.t) + PostDelta[e.t]
+ObsTotals == ObsKnown => /\ \A e \in PostEntries : e.fee = Fee(e.t) /\ e.vsize = VSize(e.t) /\ e.mfee = Fee(e.t) + PostDelta[TID_[e.t]]
                          /\ Post.tsize = SumF([x \in TxIds |-> VSize(x)], PostPool)
                          /\ Post.tfee = SumF([x \in TxIds |-> Fee(x)], PostPool)
 \* ---- C26: whatever the node accepted as a replacement satisfies the necessary conditions in the state it was submitted to,
@@ -46,4 +51,51 @@ ObsRejectNoEvict == (Act[1] = "submit" /\ ~Line.res.ok /\ Line.res.why # "mempoo
 ObsPolicyImpliesConsensus == Act[1] \in {"submit", "test"} => Line.res.why # "consensus-script-failed"
 \* ---- C28: a test-accept changes nothing
 ObsTestPure == Act[1] = "test" => (Line.res.pure /\ PostPool = pool /\ PostDelta = delta)
+
+\* ---- C27
+NoDisconnectSoFar == Line.pre.ctr.disc = 0 /\ Line.pre.ctr.reorg = 0 /\ Act[1] \notin {"disconnect", "reorg"}
+\* memory (bytes, as the node counts them) within the node's limit after every step
+ObsUsage == Post.maxusage = 0 \/ Post.usage <= Post.maxusage
+ObsClusterLimits == ObsKnown => ClusterOK(PostPool, PostPool)
+\* the transactions this call put into the pool (possibly to be trimmed away again at once)
+Added == IF Act[1] = "submit" THEN (IF Line.res.ok \/ Line.res.why = "mempool full" THEN {Act[2]} ELSE {})
+         ELSE IF Act[1] = "pkg" THEN {Act[2][i] : i \in {i \in 1..Len(Act[2]) : Line.res.txr[i].k = "valid" \/ Line.res.txr[i].why = "mempool full"}}
+         ELSE {}
+\* evicted for space: gone, but neither replaced nor expired (the scenarios with a reachable limit do not advance the clock)
+PreTrim == (pool \ ToSet(Line.res.evict)) \cup Added
+SpaceEvicted == (PreTrim \ PostPool) \ ExpireSet(PreTrim, [t \in TxIds |-> IF t \in Added THEN now ELSE etime[t]], now)
+ObsMinFeeAboveEvicted ==
+  (ObsKnown /\ Act[1] \in {"submit", "pkg"} /\ Post.maxusage # 0 /\ SpaceEvicted # {}) =>
+     \A Cl \in ClustersOf(PreTrim, SpaceEvicted) :
+        LET cs == ClusterChunksT(PreTrim, delta, Cl) IN
+        \A i \in 1..Len(cs) : cs[i].txs \cap SpaceEvicted # {} => ProdGT(Post.minfee, VSofW(cs[i].s), cs[i].f, 1000)
+ObsTruc == (ObsKnown /\ STD /\ NoDisconnectSoFar) => TrucTopologyIn(PostPool)
+ObsDust == (ObsKnown /\ STD /\ NoDisconnectSoFar) =>
+              /\ Act[1] \in {"submit", "pkg"} => DustAtAcceptance(pool, delta, PostPool)
+              /\ DustSpentIn(PostPool)
+
+\* ---- C29
+ObsPkgShape == Act[1] = "pkg" => Len(Line.res.txr) = Len(Act[2])
+ObsPkgGate == (Act[1] = "pkg" /\ ObsPkgShape) => PkgGateOK(Act[2], Line.res, pool, PostPool)
+ObsPkgNoDangling == (Act[1] = "pkg" /\ ObsKnown) => PkgNoDangling(Act[2], PostPool, PostUtxo)
+ObsPkgResults == (Act[1] = "pkg" /\ ObsPkgShape) => PkgResultsMatch(Act[2], Line.res, pool, PostPool)
+
+\* ---- C55
+LoadInfo == Line.res["@load"]
+Existing == ToSet(LoadInfo.before.pool)
+\* the saved entries in the order the node wrote them
+FileObs == LET ord == LoadInfo.order IN
+           [file EXCEPT !.recs = [i \in 1..Len(ord) |-> CHOOSE r \in ToSet(file.recs) : TID_[r.t] = ord[i]]]
+\* the file holds exactly the saved pool, parents before children
+ObsDumpOrder == Act[1] = "load" =>
+                  LET ord == LoadInfo.order IN
+                  /\ Len(ord) = Len(file.recs) /\ ToSet(ord) = {TID_[file.recs[i].t] : i \in 1..Len(file.recs)}
+                  /\ \A i, k \in 1..Len(ord) : (ord[k] \in INTID_[ord[i]]) => k < i
+                  /\ Line.res.why # "file-order-not-topological"
+ObsLoadTruncated == (Act[1] = "load" /\ Truncation(Act[2])) => ~Line.res.ok
+ObsLoadRoundTrip == (Act[1] = "load" /\ Act[2].kind = "none" /\ ObsKnown) =>
+                       /\ Line.res.ok
+                       /\ RoundTripIn(file, PostPool, PostTimes, PostDelta, PostUnb, utxo, chain, NoMF, now, Existing)
+ObsLoadSafe == (Act[1] = "load" /\ ObsKnown /\ ObsDumpOrder) => LoadSafeIn(FileObs, Existing, PostPool, utxo, chain, now)
+ObsDumpOk == Act[1] = "dump" => Line.res.ok
 ====
